@@ -107,3 +107,17 @@ Example ex_first_result_below_min :
   = ([], [(0%nat, false); (1%nat, false)], None) /\
   lsplit 1 4 ([1], false) (Some ([2; 3; 4; 5; 6; 7], false)) = Some [([1; 2; 3], false); ([4; 5; 6; 7], false)].
 Proof. vm_compute. split; reflexivity. Qed.
+
+(* round 3: the hypotheses of cached_size_exact_any_sizer / batch_size_bound_any_sizer are satisfiable (fresh
+   request, unknown memo; warm memo), and the conclusions in numbers on the F5 input at max_size 100 *)
+From Verif Require Import C04.Proofs6 C04.Proofs7.
+Example ex_memo_ok : memo_ok w_unit Bytes f5_req /\ memo_ok w_unit Bytes {| rp := rp f5_req; rcached := 101 |}.
+Proof. split; [left; reflexivity|right; vm_compute; reflexivity]. Qed.
+Example ex_bytes_bound_numbers :
+  summary w_unit Bytes (merge_split w_unit Bytes 100 f5_req None) = Some [(-1, 98, 1%nat); (31, 31, 1%nat)].
+Proof. vm_compute. reflexivity. Qed.
+
+(* the error specification on the history of ex_hist: batch 2 (ids [5;6], attached to requests 0 and 1) failed *)
+Example ex_spec_err :
+  let E := snd (erun (lsplit 0 2) lsizeof 2 hist) in (E 0%nat, E 1%nat, E 2%nat) = (true, true, false).
+Proof. vm_compute. reflexivity. Qed.
